@@ -45,10 +45,34 @@ var contractPkgs = []string{
 	"internal/pkg/midi/device",
 	"internal/pkg/midi/device/config",
 	"internal/pkg/input",
+	"cmd/hidi",
 }
 
+// cmd/hidi links ALSA through cgo (headers absent here). config.go is loaded verbatim; the other three files are
+// replaced by this stub holding only the package-level identifiers config.go refers to (nothing under test lives there).
+const cmdHidiStub = `package main
+
+import (
+	"time"
+
+	"github.com/gethiox/HIDI/internal/pkg/input"
+	"github.com/gethiox/HIDI/internal/pkg/logger"
+)
+
+var log = logger.GetLogger()
+
+func collectDevices(d time.Duration) []input.Device { return nil }
+
+func main() {}
+`
+
 func loadEngine() (*Engine, error) {
-	cfg := &packages.Config{Mode: packages.LoadAllSyntax, Dir: repoRoot, Env: append(os.Environ(), "GOFLAGS=-mod=mod", "GOPROXY=off", "GOSUMDB=off", "GOTOOLCHAIN=local")}
+	cfg := &packages.Config{Mode: packages.LoadAllSyntax, Dir: repoRoot, Env: append(os.Environ(), "GOFLAGS=-mod=mod", "GOPROXY=off", "GOSUMDB=off", "GOTOOLCHAIN=local"),
+		Overlay: map[string][]byte{
+			filepath.Join(repoRoot, "cmd/hidi/main.go"):    []byte(cmdHidiStub),
+			filepath.Join(repoRoot, "cmd/hidi/manager.go"): []byte("package main\n"),
+			filepath.Join(repoRoot, "cmd/hidi/cli.go"):     []byte("package main\n"),
+		}}
 	var patterns []string
 	for _, p := range contractPkgs {
 		patterns = append(patterns, "./"+p)
@@ -280,8 +304,8 @@ func (e *Engine) globalInit(x *Exec, g *ssa.Global, t Term) {
 			}
 		}
 	}
-	if lit == nil {
-		return
+	if lit == nil || len(lit.Elts) > 64 {
+		return // large tables (evdev name tables): contents not needed, left unconstrained
 	}
 	if !e.globalNeverWritten(g) {
 		e.notes = append(e.notes, "global "+g.Name()+" is written outside init: contents not assumed")
@@ -376,11 +400,12 @@ func (e *Engine) genVC(key string) (res *FuncResult) {
 	}
 	w := newWorld()
 	vc := newVC(w, fc.Name)
+	curDefs = map[string]string{}
 	x := &Exec{eng: e, w: w, vc: vc, fn: fn, fc: fc, pkg: fn.Pkg.Pkg,
 		vals: map[ssa.Value]Term{}, tuples: map[ssa.Value][]Term{}, iptr: map[string]Addr{},
 		heapSorts: map[string]Sort{}, nilAxiom: map[string]bool{}, cardAx: map[string]bool{}, trusted: map[string]bool{}, assumedExterns: map[string]bool{}, dropped: map[string]bool{},
 		exitSt: map[*ssa.BasicBlock]*State{}, exitPC: map[*ssa.BasicBlock]Term{}, edgeCond: map[[2]*ssa.BasicBlock]Term{},
-		forced: map[*ssa.BasicBlock]*edgeState{}, closures: map[string]*ssa.MakeClosure{}, slInv: map[string]bool{}, allSorts: map[string]Sort{}}
+		forced: map[*ssa.BasicBlock]*edgeState{}, closures: map[string]*ssa.MakeClosure{}, slInv: map[string]bool{}, allSorts: map[string]Sort{}, boxOf: map[string]boxedVal{}}
 	res.VC = vc
 	p0 := e.prog.Fset.Position(fn.Pos())
 	res.SrcFile = shortPath(p0.Filename)
@@ -437,7 +462,7 @@ func (e *Engine) genLemmaVC(l *Lemma, pkg *types.Package) (res *FuncResult) {
 	x := &Exec{eng: e, w: w, vc: vc, pkg: pkg,
 		vals: map[ssa.Value]Term{}, tuples: map[ssa.Value][]Term{}, iptr: map[string]Addr{},
 		heapSorts: map[string]Sort{}, nilAxiom: map[string]bool{}, cardAx: map[string]bool{}, trusted: map[string]bool{}, assumedExterns: map[string]bool{}, dropped: map[string]bool{},
-		closures: map[string]*ssa.MakeClosure{}, slInv: map[string]bool{}, allSorts: map[string]Sort{}}
+		closures: map[string]*ssa.MakeClosure{}, slInv: map[string]bool{}, allSorts: map[string]Sort{}, boxOf: map[string]boxedVal{}}
 	x.entry = newState()
 	x.params = map[string]SVal{}
 	x.lets = map[string]SVal{}
